@@ -1,5 +1,5 @@
 // drv_uni.cpp -- C20 correspondence driver (real Unicode::ToUTF and JSON::Parse).
-// case lines (w = sizeof(Char_T): 1 char, 2 char16_t, 4 char32_t):
+// case lines (w = character kind: 1 char, 2 char16_t, 4 char32_t (= sizeof), 5 wchar_t):
 //   E <w> <cp>                              Unicode::ToUTF<C>(cp, stream)            -> units
 //   J <w> <k1> <k2> <cp> <pre> <post>       JSON::Parse of  ["<pre>ESC<post>"]        -> units of value[0] | FAIL
 //        ESC = \uXXXX for cp < 0x10000, else the surrogate pair; k1 (first / only
@@ -119,6 +119,7 @@ int main() {
             case 1: return range ? run_range<char>(tk) : run<char>(tk);
             case 2: return range ? run_range<char16_t>(tk) : run<char16_t>(tk);
             case 4: return range ? run_range<char32_t>(tk) : run<char32_t>(tk);
+            case 5: return range ? run_range<wchar_t>(tk) : run<wchar_t>(tk);
             default: return "BADCASE";
         }
     });
